@@ -206,7 +206,8 @@ def struct_children(g, n_cp=None):
         it.attrs.append(Instr("child_parents", "child_parents", container=None, entries=cp_entries()))
     if g.chance(0.3) and shape == "named":
         k = g.mark()
-        it.attrs.append(Instr("ghosts", "ghosts", container=None, entries=[dict(path=r.choice(paths), ident=f"g{k}", action=f"k{k}()")]))
+        # a ghost addressed by child path needs the child_parents of the counterpart it applies to
+        it.attrs.append(Instr("ghosts", "ghosts", container=(cps[0] if dedicated else None), entries=[dict(path=r.choice(paths), ident=f"g{k}", action=f"k{k}()")]))
     return it
 
 
